@@ -619,9 +619,24 @@ def _iter_consumer(kind):
             except Exception:
                 recv = args[0]
 
+        src_ = strip(recv[3]) if recv[0] == 'ref' and len(recv) > 3 else strip(recv)
+        gen = src_[2][0] if src_[0] == 'call' and re.search(r'core::iter(::sources::from_fn)?::from_fn$', src_[1]) and src_[2] else None
+
+        def items(st_, k):
+            if gen is not None:
+                # iter::from_fn(g): `next()` is `g()`
+                for st2, r in _app(it, st_, gen, [], ctx):
+                    if r is None:
+                        continue
+                    for out in it._fork_variant(st2, r, OPT, fn, bb, frame):
+                        yield out
+            else:
+                nxt = ('call', 'core::iter::Iterator::next', (recv,), (site[0], site[1], 'iter%d' % k))
+                for out in it._fork_variant(st_, nxt, OPT, fn, bb, frame):
+                    yield out
+
         def step(st_, k):
-            nxt = ('call', 'core::iter::Iterator::next', (recv,), (site[0], site[1], 'iter%d' % k))
-            for st2, var, pay in it._fork_variant(st_, nxt, OPT, fn, bb, frame):
+            for st2, var, pay in items(st_, k):
                 if var == 'None':
                     yield st2, (UNIT if kind == 'for_each' else _mk(RES, 'Ok', UNIT))
                 elif k < bound:
@@ -1113,7 +1128,9 @@ class Interp:
                 if a and any(v['name'] == var for v in a['variants']):
                     yield st, _mk(cand, var, *argvals)
                     return
-            yield st, ('call', nm, tuple(argvals), site)
+            from facts import strip_generics
+            st.effects.append(Effect('call', (None, strip_generics(nm), tuple(argvals), site), fn, bb, frame, t, len(st.decisions)))      # (an opaque function item applied by a combinator is a call like any other)
+            yield st, ('call', strip_generics(nm), tuple(argvals), site)
             return
         inner = sf
         if inner[0] == 'ref':
